@@ -17,6 +17,7 @@ CONSTANTS
   Both = FALSE
   PickMode = "impl"
   JunkKinds <- JAll
+  KeepHist = TRUE
   D = 60
 INIT Init
 NEXT Next
